@@ -354,9 +354,15 @@ def overlap_union_specs() -> st.SearchStrategy[t.Any]:
         ('union', 'Union', tuple(('seq', 'TupleVar', m) for m in ms)),
         ('union', 'Union', tuple(('seq', 'Set', m) for m in ms)),
     ]))
-    fam = st.sampled_from(sorted(FAMILIES)).flatmap(
+    fam = st.sampled_from(sorted(FAMILIES) + ['temporal', 'temporal', 'subtyped', 'tagged']).flatmap(
         lambda f: st.lists(st.sampled_from(FAMILIES[f]), min_size=2, max_size=4, unique_by=repr)).map(lambda ms: ('union', 'Union', tuple(ms)))
-    union = st.one_of(same_container, fam, fam)
+    # a base type listed before a type whose values are also instances of it: the earlier member sees the later one's values on output
+    base_then_sub = st.sampled_from([
+        (S('date'), S('datetime')), (S('time'), S('datetime')), (S('date'), S('str'), S('datetime')), (S('int'), S('bool')), (S('int'), ('enum', 'IE')),
+        (S('str'), ('enum', 'SE')), (S('PurePosixPath'), S('Path')), (S('float'), ('sub', 'float')), (S('int'), ('sub', 'int')), (S('str'), ('sub', 'str')),
+        (('map', 'Dict', S('str'), S('int')), ('map', 'OrderedDict', S('str'), S('int'))), (('map', 'Dict', S('str'), S('int')), ('map', 'Counter', S('str'))),
+    ]).map(lambda ms: ('union', 'Union', tuple(ms)))
+    union = st.one_of(same_container, fam, fam, base_then_sub)
     holder = union.map(lambda u: ('cls', {'fields': [{'name': 'x', 'type': u}, {'name': 'y', 'type': ('seq', 'List', u), 'default': ['factory', []]}], 'opts': {}}))
     return st.one_of(union, union, holder, union.map(lambda u: ('seq', 'List', u)), union.map(lambda u: ('map', 'Dict', S('str'), u)))
 
